@@ -22,7 +22,7 @@ func init() {
 		var cur *ttlcode.CodeStore
 		runLines(func() func(fs []string) string {
 			if cur != nil {
-				cur.Close() // stop the previous case's sweeper goroutine
+				go cur.Close() // stop the previous case's sweeper goroutine (in the background: a store that dead-locked never lets go of its mutex)
 			}
 			var mu sync.Mutex
 			now := int64(0)
